@@ -182,7 +182,7 @@ class Drive:
 
 
 class Library:
-    """Ground truth built from ``recipe = {"seed", "shape", "page_size", "strip_fraction"?, "empty_pages"?, "prefix_siblings"?, "ext_shapes"?}``.
+    """Ground truth built from ``recipe = {"seed", "shape", "page_size", "strip_fraction"?, "empty_pages"?, "prefix_siblings"?, "ext_shapes"?, "folder_stamps"?}``.
 
     ``prefix_siblings``: next to some folders (any depth) there are sibling folders whose name extends the folder's name
     ("Plan" / "Plan2024" / "Plan old") or is a proper prefix of it ("Pl"), each with files of its own and sometimes a
@@ -216,6 +216,8 @@ class Library:
                 self._add_prefix_siblings(root)
             if recipe.get("ext_shapes"):
                 self._add_ext_shapes(root)
+            if recipe.get("folder_stamps"):
+                self._restamp_folders(root)
             d.index()
             self.drives.append(d)
         self.default_drive = self.drives[0]
@@ -306,6 +308,26 @@ class Library:
         c.created = (c.modified[0] - rng.choice([0, 5, 86400]), rng.choice(_FRACS))
         folder.children.insert(rng.randrange(len(folder.children) + 1), c)
         return c
+
+    def _restamp_folders(self, root: Node):
+        """``folder_stamps``: a folder's own lastModifiedDateTime says nothing about what is below it (Graph does not
+        propagate edits upwards): mostly years older than every file below, sometimes newer, sometimes absent."""
+        rng = self._rng
+        stack = [root]
+        while stack:
+            f = stack.pop()
+            for c in f.children:
+                if c.kind != "folder":
+                    continue
+                stack.append(c)
+                r = rng.random()
+                if r < 0.6:
+                    c.modified = (1_262_304_000 + rng.randrange(0, 200_000_000), rng.choice(_FRACS))       # 2010 .. 2016
+                elif r < 0.8:
+                    c.modified = (1_893_456_000 + rng.randrange(0, 30_000_000), rng.choice(_FRACS))        # 2030
+                else:
+                    c.omit = frozenset(set(c.omit) | {"lastModifiedDateTime"})
+                c.created = (min(c.created[0], c.modified[0]) if c.created and c.modified else 1_200_000_000, "")
 
     def _add_ext_shapes(self, root: Node):
         """``ext_shapes``: file names whose "extension" is not simply the text after the only dot — compound extensions in
